@@ -529,7 +529,7 @@ pub(crate) fn add(ctx: &mut TulispContext) {
         } else {
             rest
         };
-        name.set_scope(
+        name.set_global(
             TulispValue::Defmacro {
                 params: params.try_into()?,
                 body,
